@@ -243,6 +243,37 @@ def check(ctx, rid):
                     wrong = [r_ for r_ in want.roles if _show(got.roles.get(r_)) != _show(want.roles.get(r_))]
                     what = f"computes {got.op} where the interface says {want.op}" if got.op != want.op else f"passes {', '.join(f'{r_}={_show(got.roles.get(r_))}' for r_ in wrong)} to the library where the caller's {', '.join(f'{r_}={_show(want.roles.get(r_))}' for r_ in wrong)} belong"
                     ctx.violated(rid, m, label, f"tensorlib.{mname} of the {backend} backend {what}: every rate, constraint term and batched evaluation computed on this backend through `{mname}` is wrong while the other backends are right", expected=repr(want), found=repr(got))
+        # ---- conditional(predicate, true_callable, false_callable): the branch taken is the predicate's
+        m = cls.methods.get("conditional")
+        if m is not None:
+            ctx.touch(m)
+            params = [p for p in A.params_of(m.node) if p != "self"]
+            site = f"{rel}::{cname}.conditional"
+            try:
+                outs = []
+                for pred in (True, False):
+                    tf_, ff_ = PyFunc(lambda a, k: Obj("RESULT_OF_TRUE_BRANCH"), "true_callable"), PyFunc(lambda a, k: Obj("RESULT_OF_FALSE_BRANCH"), "false_callable")
+
+                    def cond(a, k, pred=pred):
+                        p_ = a[0] if a else k.get("pred")
+                        t_ = a[1] if len(a) > 1 else k.get("true_fn")
+                        f_ = a[2] if len(a) > 2 else k.get("false_fn")
+                        chosen = t_ if p_ is True else (f_ if p_ is False else None)
+                        if not isinstance(chosen, PyFunc):
+                            raise Undecided("tf.cond with an unmodelled branch")
+                        return chosen.f([], {})
+
+                    env = dict(zip(params, [pred, tf_, ff_]))
+                    env.update({"tf": Obj("tf")})
+                    outs.append(Interp(env, {}, {}, cls_name=cname, externals={"__strict__": True, "cond": cond}).run(A.strip_docstring(m.node.body)))
+                names = [getattr(o, "name", str(o)) for o in outs]
+                if names == ["RESULT_OF_TRUE_BRANCH", "RESULT_OF_FALSE_BRANCH"]:
+                    n_ok += 1
+                    ctx.holds(rid, site, "true predicate -> true_callable(), false predicate -> false_callable()")
+                else:
+                    ctx.violated(rid, m, "conditional", f"tensorlib.conditional of the {backend} backend does not evaluate the branch the predicate selects (true -> {names[0]}, false -> {names[1]}): the asymptotic qtilde transform takes the wrong formula on this backend", expected="true_callable() / false_callable()", found=str(names))
+            except (Undecided, KeyError, TypeError, ValueError, IndexError, AttributeError) as e:
+                ctx.unrecognised(rid, m, "conditional", f"not interpretable: {type(e).__name__}: {e}")
     return n_ok
 
 
